@@ -25,6 +25,922 @@ def entered (s : MonSt) : List Nat :=
   s.readers.flatMap fun r =>
     (match r.pc with | .idle => [] | .parked i => [i] | .woken i => [i]) ++ r.results.map (·.1)
 
+
+/-! ## Helper definitions and lemmas: the inductive invariants -/
+namespace Mon
+
+/-- the first `n` source positions hold digits -/
+def Good (c : MonCfg) (n : Nat) : Prop := ∀ k, k < n → c.endTest (c.src k) = false
+
+def cap (c : MonCfg) : Nat := c.chunk * c.maxChunks
+
+/-- producer invariant, per program counter -/
+def PInv (c : MonCfg) (len : Nat) (done : Bool) (maxLength consulted : Nat) : ProdPc → Prop
+  | .check i => done = false ∧ consulted = len ∧ len = i * c.chunk ∧ Good c len
+  | .parked i => done = false ∧ consulted = len ∧ len = i * c.chunk ∧ Good c len ∧ maxLength ≤ len
+  | .computing i j loc => done = false ∧ loc = len + j ∧ j < c.chunk ∧ consulted = loc ∧
+      len = i * c.chunk ∧ len < maxLength ∧ Good c loc
+  | .publishing i loc false => done = false ∧ len = i * c.chunk ∧ loc = len + c.chunk ∧
+      consulted = loc ∧ loc ≤ maxLength ∧ Good c loc
+  | .publishing i loc true => done = false ∧ len = i * c.chunk ∧ len ≤ loc ∧ loc < len + c.chunk ∧
+      len < maxLength ∧ consulted = loc + 1 ∧ Good c loc ∧ c.endTest (c.src loc) = true
+  | .finalPublish loc => done = false ∧ loc = len ∧ cap c ≤ len ∧ consulted = len ∧ Good c len
+  | .exited => done = true ∧ Good c len ∧
+      ((c.endTest (c.src len) = true ∧ consulted = len + 1) ∨ (cap c ≤ len ∧ consulted = len))
+
+theorem mem_entered (s : MonSt) (i : Nat) :
+    i ∈ entered s ↔ ∃ r ∈ s.readers,
+      (r.pc = .parked i ∨ r.pc = .woken i ∨ ∃ res ∈ r.results, res.1 = i) := by
+  unfold entered
+  simp only [List.mem_flatMap, List.mem_append, List.mem_map]
+  constructor
+  · rintro ⟨r, hr, h⟩
+    refine ⟨r, hr, ?_⟩
+    rcases h with h | h
+    · cases hpc : r.pc <;> simp [hpc] at h <;> simp [h]
+    · exact Or.inr (Or.inr h)
+  · rintro ⟨r, hr, h⟩
+    refine ⟨r, hr, ?_⟩
+    rcases h with h | h | h
+    · left; simp [h]
+    · left; simp [h]
+    · right; exact h
+
+structure Inv1 (c : MonCfg) (s : MonSt) : Prop where
+  hdvd : c.chunk ∣ s.maxLength
+  hM : s.maxLength ≤ cap c
+  hcons : s.consulted ≤ s.maxLength
+  hprod : PInv c s.len s.done s.maxLength s.consulted s.prod
+  hres : ∀ r ∈ s.readers, ∀ res ∈ r.results, res.2.1 ≤ s.len
+  hent : s.maxLength = 0 ∨ ∃ i ∈ entered s, s.maxLength ≤ i + c.chunk
+
+theorem inv1_init (c : MonCfg) (programs : List (List Nat)) : Inv1 c (monInit programs) := by
+  refine ⟨?_, ?_, ?_, ?_, ?_, ?_⟩ <;> simp [monInit, PInv, Good]
+
+
+theorem dvd_step {a x y : Nat} (hx : a ∣ x) (hy : a ∣ y) (h : x < y) : x + a ≤ y := by
+  have h1 : a ∣ y - x := Nat.dvd_sub hy hx
+  have h2 : a ≤ y - x := Nat.le_of_dvd (by omega) h1
+  omega
+
+theorem grownMax_dvd (c : MonCfg) (i : Nat) : c.chunk ∣ grownMax c i := Nat.dvd_mul_right _ _
+
+theorem grownMax_le_cap (c : MonCfg) (i : Nat) : grownMax c i ≤ cap c :=
+  Nat.mul_le_mul_left _ (Nat.min_le_right _ _)
+
+theorem grownMax_le (c : MonCfg) (i : Nat) : grownMax c i ≤ i + c.chunk := by
+  have h1 : grownMax c i ≤ c.chunk * (i / c.chunk + 1) := Nat.mul_le_mul_left _ (Nat.min_le_left _ _)
+  have h2 : c.chunk * (i / c.chunk) ≤ i := Nat.mul_div_le i c.chunk
+  rw [Nat.mul_add, Nat.mul_one] at h1
+  omega
+
+theorem grownMax_gt (c : MonCfg) (hc : 0 < c.chunk) (i : Nat) (h : i < cap c) : i < grownMax c i := by
+  unfold grownMax
+  rcases Nat.le_total (i / c.chunk + 1) c.maxChunks with h1 | h1
+  · rw [Nat.min_eq_left h1]
+    exact Nat.lt_mul_div_succ i hc
+  · rw [Nat.min_eq_right h1]; exact h
+
+theorem grownMax_ge (c : MonCfg) (hc : 0 < c.chunk) (i m : Nat) (hd : c.chunk ∣ m) (hM : m ≤ cap c) (hi : m ≤ i) :
+    m ≤ grownMax c i := by
+  obtain ⟨q, rfl⟩ := hd
+  unfold grownMax
+  apply Nat.mul_le_mul_left
+  apply Nat.le_min.mpr
+  constructor
+  · have : q ≤ i / c.chunk := (Nat.le_div_iff_mul_le hc).mpr (by rw [Nat.mul_comm]; exact hi)
+    omega
+  · exact Nat.le_of_mul_le_mul_left hM hc
+
+theorem inv1_pCheck (c : MonCfg) (hc : 0 < c.chunk) (s s' : MonSt) (hi : Inv1 c s)
+    (h : step c s .pCheck = some s') : Inv1 c s' := by
+  obtain ⟨hdvd, hM, hcons, hprod, hres, hent⟩ := hi
+  simp only [step] at h
+  split at h
+  · rename_i i hpc
+    rw [hpc] at hprod
+    simp only [PInv] at hprod
+    split at h
+    · injection h with h; subst h
+      exact ⟨hdvd, hM, hcons, by simp only [PInv]; grind, hres, hent⟩
+    · split at h
+      · omega
+      · injection h with h; subst h
+        refine ⟨hdvd, hM, hcons, ?_, hres, hent⟩
+        simp only [PInv]
+        refine ⟨hprod.1, rfl, hc, hprod.2.1, hprod.2.2.1, by omega, hprod.2.2.2⟩
+  · cases h
+
+theorem good_succ {c : MonCfg} {n : Nat} (h : Good c n) (h1 : c.endTest (c.src n) = false) :
+    Good c (n + 1) := by
+  intro k hk
+  rcases Nat.lt_succ_iff_lt_or_eq.mp hk with h2 | h2
+  · exact h k h2
+  · rw [h2]; exact h1
+
+theorem inv1_pCompute (c : MonCfg) (s s' : MonSt) (hi : Inv1 c s)
+    (h : step c s .pCompute = some s') : Inv1 c s' := by
+  obtain ⟨hdvd, hM, hcons, hprod, hres, hent⟩ := hi
+  simp only [step] at h
+  split at h
+  · rename_i i j loc hpc
+    rw [hpc] at hprod
+    simp only [PInv] at hprod
+    obtain ⟨h1, h2, h3, h4, h5, h6, h7⟩ := hprod
+    have hd : c.chunk ∣ s.len := ⟨i, by rw [h5, Nat.mul_comm]⟩
+    have h8 := dvd_step hd hdvd h6
+    split at h
+    · rename_i he
+      injection h with h; subst h
+      refine ⟨hdvd, hM, ?_, ?_, hres, hent⟩
+      · simp only []; omega
+      · simp only [PInv]
+        rw [h4] at he
+        exact ⟨h1, h5, by omega, by omega, h6, by omega, h7, he⟩
+    · rename_i he
+      rw [h4] at he
+      have he' : c.endTest (c.src loc) = false := by simpa using he
+      have hg := good_succ h7 he'
+      split at h
+      · injection h with h; subst h
+        refine ⟨hdvd, hM, ?_, ?_, hres, hent⟩
+        · simp only []; omega
+        · simp only [PInv]
+          exact ⟨h1, h5, by omega, by omega, by omega, hg⟩
+      · injection h with h; subst h
+        refine ⟨hdvd, hM, ?_, ?_, hres, hent⟩
+        · simp only []; omega
+        · simp only [PInv]
+          exact ⟨h1, by omega, by omega, by omega, h5, h6, hg⟩
+  · cases h
+
+/-- effect of a Broadcast on one reader -/
+def bc (r : Reader) : Reader :=
+  match r.pc with
+  | .parked i => { r with pc := .woken i }
+  | _ => r
+
+theorem broadcast_eq (rs : List Reader) : broadcast rs = rs.map bc := rfl
+
+theorem bc_results (r : Reader) : (bc r).results = r.results := by
+  unfold bc; split <;> rfl
+
+theorem bc_todo (r : Reader) : (bc r).todo = r.todo := by
+  unfold bc; split <;> rfl
+
+theorem bc_pc (r : Reader) : (bc r).pc = match r.pc with | .parked i => .woken i | p => p := by
+  unfold bc; split <;> simp_all
+
+/-- `i` has been entered by reader `r` -/
+def Ent (r : Reader) (i : Nat) : Prop :=
+  r.pc = .parked i ∨ r.pc = .woken i ∨ ∃ res ∈ r.results, res.1 = i
+
+theorem mem_entered' (s : MonSt) (i : Nat) : i ∈ entered s ↔ ∃ r ∈ s.readers, Ent r i :=
+  mem_entered s i
+
+theorem ent_bc (r : Reader) (i : Nat) (h : Ent r i) : Ent (bc r) i := by
+  unfold Ent at *
+  rw [bc_results, bc_pc]
+  rcases h with h | h | h
+  · right; left; rw [h]
+  · right; left; rw [h]
+  · right; right; exact h
+
+theorem hent_mono (c : MonCfg) (s s' : MonSt) (hm : s'.maxLength = s.maxLength)
+    (hr : ∀ r ∈ s.readers, ∀ i, Ent r i → ∃ r' ∈ s'.readers, Ent r' i)
+    (h : s.maxLength = 0 ∨ ∃ i ∈ entered s, s.maxLength ≤ i + c.chunk) :
+    s'.maxLength = 0 ∨ ∃ i ∈ entered s', s'.maxLength ≤ i + c.chunk := by
+  rw [hm]
+  rcases h with h | ⟨i, hi, h⟩
+  · exact Or.inl h
+  · right
+    refine ⟨i, ?_, h⟩
+    rw [mem_entered'] at hi ⊢
+    obtain ⟨r, hr1, hr2⟩ := hi
+    exact hr r hr1 i hr2
+
+theorem ent_broadcast (rs : List Reader) : ∀ r ∈ rs, ∀ i, Ent r i → ∃ r' ∈ broadcast rs, Ent r' i := by
+  intro r hr i hi
+  exact ⟨bc r, by rw [broadcast_eq]; exact List.mem_map_of_mem hr, ent_bc r i hi⟩
+
+theorem hres_broadcast (rs : List Reader) (n n' : Nat) (hn : n ≤ n')
+    (h : ∀ r ∈ rs, ∀ res ∈ r.results, res.2.1 ≤ n) :
+    ∀ r ∈ broadcast rs, ∀ res ∈ r.results, res.2.1 ≤ n' := by
+  intro r hr res hres
+  rw [broadcast_eq, List.mem_map] at hr
+  obtain ⟨r0, hr0, rfl⟩ := hr
+  rw [bc_results] at hres
+  exact Nat.le_trans (h r0 hr0 res hres) hn
+
+theorem inv1_pPublish (c : MonCfg) (hc : 0 < c.chunk) (s s' : MonSt) (hi : Inv1 c s)
+    (h : step c s .pPublish = some s') : Inv1 c s' := by
+  obtain ⟨hdvd, hM, hcons, hprod, hres, hent⟩ := hi
+  simp only [step] at h
+  split at h
+  · rename_i i loc fin hpc
+    rw [hpc] at hprod
+    injection h with h; subst h
+    cases fin
+    · simp only [PInv] at hprod
+      obtain ⟨h1, h2, h3, h4, h5, h6⟩ := hprod
+      refine ⟨hdvd, hM, hcons, ?_, hres_broadcast _ _ _ (by simp only []; omega) hres,
+        hent_mono c s _ rfl (ent_broadcast _) hent⟩
+      simp only [Bool.false_eq_true, if_false]
+      split
+      · simp only [PInv]
+        refine ⟨trivial, h4, ?_, h6⟩
+        rw [h3, h2, Nat.add_mul, Nat.one_mul]
+      · rename_i hlt
+        simp only [PInv]
+        refine ⟨trivial, trivial, ?_, h4, h6⟩
+        have : c.maxChunks ≤ i + 1 := by omega
+        have h7 : c.maxChunks * c.chunk ≤ (i + 1) * c.chunk := Nat.mul_le_mul_right _ this
+        rw [Nat.add_mul, Nat.one_mul, ← h2, ← h3, Nat.mul_comm] at h7
+        exact h7
+    · simp only [PInv] at hprod
+      obtain ⟨h1, h2, h3, h4, h5, h6, h7, h8⟩ := hprod
+      refine ⟨hdvd, hM, hcons, ?_, hres_broadcast _ _ _ h3 hres,
+        hent_mono c s _ rfl (ent_broadcast _) hent⟩
+      simp only [if_true, PInv]
+      exact ⟨trivial, h7, Or.inl ⟨h8, h6⟩⟩
+  · rename_i loc hpc
+    rw [hpc] at hprod
+    injection h with h; subst h
+    simp only [PInv] at hprod
+    obtain ⟨h1, h2, h3, h4, h5⟩ := hprod
+    refine ⟨hdvd, hM, hcons, ?_, hres_broadcast _ _ _ (by simp only []; omega) hres,
+        hent_mono c s _ rfl (ent_broadcast _) hent⟩
+    simp only [PInv]
+    subst h2
+    exact ⟨trivial, h5, Or.inr ⟨h3, h4⟩⟩
+  · cases h
+
+theorem mem_set_or {α : Type} (l : List α) (k : Nat) (a b x : α) (hk : l[k]? = some a) (hx : x ∈ l) :
+    x ∈ l.set k b ∨ x = a := by
+  obtain ⟨n, hn, rfl⟩ := List.getElem_of_mem hx
+  by_cases hnk : k = n
+  · subst hnk
+    right
+    rw [List.getElem?_eq_getElem hn] at hk
+    exact Option.some.inj hk
+  · left
+    have : (l.set k b)[n]? = some l[n] := by
+      rw [List.getElem?_set_ne hnk, List.getElem?_eq_getElem hn]
+    exact List.mem_of_getElem? this
+
+theorem mem_set_self' {α : Type} (l : List α) (k : Nat) (a b : α) (hk : l[k]? = some a) :
+    b ∈ l.set k b := by
+  have hlt : k < l.length := by
+    rcases Nat.lt_or_ge k l.length with h | h
+    · exact h
+    · rw [List.getElem?_eq_none h] at hk; cases hk
+  exact List.mem_set hlt b
+
+theorem waitTail_cases (len : Nat) (done : Bool) (index : Nat) (r : Reader) :
+    ((!done && decide (len ≤ index)) = true ∧ waitTail len done index r = { r with pc := .parked index }) ∨
+    ((!done && decide (len ≤ index)) = false ∧
+      waitTail len done index r =
+        { r with pc := .idle, results := (index, len, decide (index < len)) :: r.results }) := by
+  unfold waitTail
+  split
+  · left; exact ⟨by assumption, rfl⟩
+  · rename_i h; right; exact ⟨Bool.eq_false_iff.mpr h, rfl⟩
+
+theorem ent_waitTail_self (len : Nat) (done : Bool) (index : Nat) (r : Reader) :
+    Ent (waitTail len done index r) index := by
+  rcases waitTail_cases len done index r with ⟨_, h⟩ | ⟨_, h⟩ <;> rw [h]
+  · left; rfl
+  · right; right; exact ⟨_, List.mem_cons_self, rfl⟩
+
+theorem ent_waitTail_res (len : Nat) (done : Bool) (index : Nat) (r : Reader) (i : Nat)
+    (hr : ∃ res ∈ r.results, res.1 = i) : Ent (waitTail len done index r) i := by
+  obtain ⟨res, h1, h2⟩ := hr
+  rcases waitTail_cases len done index r with ⟨_, h⟩ | ⟨_, h⟩ <;> rw [h]
+  · right; right; exact ⟨res, h1, h2⟩
+  · right; right; exact ⟨res, List.mem_cons_of_mem _ h1, h2⟩
+
+theorem res_waitTail (len : Nat) (done : Bool) (index : Nat) (r : Reader) (res : Nat × Nat × Bool)
+    (h : res ∈ (waitTail len done index r).results) :
+    res ∈ r.results ∨ (res = (index, len, decide (index < len)) ∧ (!done && decide (len ≤ index)) = false) := by
+  rcases waitTail_cases len done index r with ⟨_, h'⟩ | ⟨h0, h'⟩ <;> rw [h'] at h
+  · left; exact h
+  · rcases List.mem_cons.mp h with h | h
+    · right; exact ⟨h, h0⟩
+    · left; exact h
+
+/-- shape of an enabled `rWake` -/
+theorem step_rWake (c : MonCfg) (s s' : MonSt) (k : Nat) (h : step c s (.rWake k) = some s') :
+    ∃ r index, s.readers[k]? = some r ∧ r.pc = .woken index ∧
+      s' = { s with readers := s.readers.set k (waitTail s.len s.done index r) } := by
+  simp only [step] at h
+  split at h
+  · cases h
+  · rename_i r hr
+    split at h
+    · rename_i index hpc
+      injection h with h
+      exact ⟨r, index, hr, hpc, h.symm⟩
+    · cases h
+
+/-- shape of an enabled `rEnter` -/
+theorem step_rEnter (c : MonCfg) (s s' : MonSt) (k : Nat) (h : step c s (.rEnter k) = some s') :
+    ∃ r index rest, s.readers[k]? = some r ∧ r.pc = .idle ∧ r.todo = index :: rest ∧
+      s' = { s with
+        maxLength := if (!s.done && decide (s.maxLength ≤ index)) = true then grownMax c index else s.maxLength,
+        prod := if (!s.done && decide (s.maxLength ≤ index)) = true then signalProd s.prod else s.prod,
+        readers := s.readers.set k (waitTail s.len s.done index { r with todo := rest }) } := by
+  simp only [step] at h
+  split at h
+  · cases h
+  · rename_i r hr
+    split at h
+    · rename_i index rest hpc htodo
+      injection h with h
+      exact ⟨r, index, rest, hr, hpc, htodo, h.symm⟩
+    · cases h
+
+theorem inv1_rWake (c : MonCfg) (s s' : MonSt) (k : Nat) (hi : Inv1 c s)
+    (h : step c s (.rWake k) = some s') : Inv1 c s' := by
+  obtain ⟨hdvd, hM, hcons, hprod, hres, hent⟩ := hi
+  obtain ⟨r, index, hr, hpc, rfl⟩ := step_rWake c s s' k h
+  have hrm : r ∈ s.readers := List.mem_of_getElem? hr
+  refine ⟨hdvd, hM, hcons, hprod, ?_, hent_mono c s _ rfl ?_ hent⟩
+  · intro r' hr' res hres'
+    rcases List.mem_or_eq_of_mem_set hr' with hr' | rfl
+    · exact hres r' hr' res hres'
+    · rcases res_waitTail _ _ _ _ _ hres' with h1 | ⟨rfl, _⟩
+      · exact hres r hrm res h1
+      · exact Nat.le_refl _
+  · intro r0 hr0 i hi
+    rcases mem_set_or s.readers k r (waitTail s.len s.done index r) r0 hr hr0 with h1 | rfl
+    · exact ⟨r0, h1, hi⟩
+    · refine ⟨_, mem_set_self' _ _ _ _ hr, ?_⟩
+      rcases hi with hi | hi | hi
+      · rw [hpc] at hi; cases hi
+      · rw [hpc] at hi; cases hi; exact ent_waitTail_self _ _ _ _
+      · exact ent_waitTail_res _ _ _ _ _ hi
+
+theorem pinv_signal (c : MonCfg) (len : Nat) (done : Bool) (m m' cons : Nat) (p : ProdPc)
+    (hm : m ≤ m') (h : PInv c len done m cons p) : PInv c len done m' cons (signalProd p) := by
+  cases p with
+  | check i => exact h
+  | parked i => exact ⟨h.1, h.2.1, h.2.2.1, h.2.2.2.1⟩
+  | computing i j loc =>
+    simp only [signalProd, PInv] at h ⊢
+    exact ⟨h.1, h.2.1, h.2.2.1, h.2.2.2.1, h.2.2.2.2.1, by omega, h.2.2.2.2.2.2⟩
+  | publishing i loc fin =>
+    cases fin
+    · simp only [signalProd, PInv] at h ⊢
+      exact ⟨h.1, h.2.1, h.2.2.1, h.2.2.2.1, by omega, h.2.2.2.2.2⟩
+    · simp only [signalProd, PInv] at h ⊢
+      exact ⟨h.1, h.2.1, h.2.2.1, h.2.2.2.1, by omega, h.2.2.2.2.2⟩
+  | finalPublish loc => exact h
+  | exited => exact h
+
+theorem inv1_rEnter (c : MonCfg) (hc : 0 < c.chunk) (s s' : MonSt) (k : Nat) (hi : Inv1 c s)
+    (h : step c s (.rEnter k) = some s') : Inv1 c s' := by
+  obtain ⟨hdvd, hM, hcons, hprod, hres, hent⟩ := hi
+  obtain ⟨r, index, rest, hr, hpc, htodo, rfl⟩ := step_rEnter c s s' k h
+  have hrm : r ∈ s.readers := List.mem_of_getElem? hr
+  have hres' : ∀ r' ∈ s.readers.set k (waitTail s.len s.done index { r with todo := rest }),
+      ∀ res ∈ r'.results, res.2.1 ≤ s.len := by
+    intro r' hr' res hres'
+    rcases List.mem_or_eq_of_mem_set hr' with hr' | rfl
+    · exact hres r' hr' res hres'
+    · rcases res_waitTail _ _ _ _ _ hres' with h1 | ⟨rfl, _⟩
+      · exact hres r hrm res h1
+      · exact Nat.le_refl _
+  have hmono : ∀ r0 ∈ s.readers, ∀ i, Ent r0 i →
+      ∃ r' ∈ s.readers.set k (waitTail s.len s.done index { r with todo := rest }), Ent r' i := by
+    intro r0 hr0 i hi
+    rcases mem_set_or s.readers k r (waitTail s.len s.done index { r with todo := rest }) r0 hr hr0 with h1 | rfl
+    · exact ⟨r0, h1, hi⟩
+    · refine ⟨_, mem_set_self' _ _ _ _ hr, ?_⟩
+      rcases hi with hi | hi | hi
+      · rw [hpc] at hi; cases hi
+      · rw [hpc] at hi; cases hi
+      · exact ent_waitTail_res _ _ _ _ _ hi
+  by_cases hg : (!s.done && decide (s.maxLength ≤ index)) = true
+  · simp only [hg, if_true]
+    have hle : s.maxLength ≤ index := by simp at hg; exact hg.2
+    have hge := grownMax_ge c hc index s.maxLength hdvd hM hle
+    refine ⟨grownMax_dvd c index, grownMax_le_cap c index, Nat.le_trans hcons hge,
+      pinv_signal c _ _ _ _ _ _ hge hprod, hres', Or.inr ⟨index, ?_, grownMax_le c index⟩⟩
+    rw [mem_entered']
+    exact ⟨_, mem_set_self' _ _ _ _ hr, ent_waitTail_self _ _ _ _⟩
+  · simp only [hg]
+    exact ⟨hdvd, hM, hcons, hprod, hres', hent_mono c s _ rfl hmono hent⟩
+
+theorem inv1_step (c : MonCfg) (hc : 0 < c.chunk) (s s' : MonSt) (l : Label) (hi : Inv1 c s)
+    (h : step c s l = some s') : Inv1 c s' := by
+  cases l with
+  | rEnter k => exact inv1_rEnter c hc s s' k hi h
+  | rWake k => exact inv1_rWake c s s' k hi h
+  | pCheck => exact inv1_pCheck c hc s s' hi h
+  | pCompute => exact inv1_pCompute c s s' hi h
+  | pPublish => exact inv1_pPublish c hc s s' hi h
+
+theorem inv1_run (c : MonCfg) (hc : 0 < c.chunk) (ls : List Label) : ∀ (s s' : MonSt), Inv1 c s →
+    runLabels c s ls = some s' → Inv1 c s' := by
+  induction ls with
+  | nil => intro s s' hi h; simp only [runLabels] at h; cases h; exact hi
+  | cons l ls ih =>
+    intro s s' hi h
+    simp only [runLabels] at h
+    split at h
+    · cases h
+    · rename_i s1 hs1
+      exact ih s1 s' (inv1_step c hc s s1 l hi hs1) h
+
+theorem inv1_reachable (c : MonCfg) (hc : 0 < c.chunk) (programs : List (List Nat)) (s : MonSt)
+    (h : Reachable c programs s) : Inv1 c s := by
+  obtain ⟨ls, h⟩ := h
+  exact inv1_run c hc ls _ s (inv1_init c programs) h
+
+/-- per-reader invariant (needs `InCapacity`) -/
+def RInv (c : MonCfg) (len : Nat) (done : Bool) (m : Nat) (r : Reader) : Prop :=
+  (∀ i ∈ r.todo, i < cap c) ∧
+  (∀ i, r.pc = .parked i → done = false ∧ len ≤ i ∧ i < m) ∧
+  (∀ i, r.pc = .woken i → i < m) ∧
+  (∀ res ∈ r.results, res.2.2 = decide (res.1 < res.2.1) ∧
+    (res.2.2 = false → ∃ e, e ≤ res.1 ∧ IsEndPos c e))
+
+def Inv2 (c : MonCfg) (s : MonSt) : Prop :=
+  ∀ r ∈ s.readers, RInv c s.len s.done s.maxLength r
+
+theorem inv2_init (c : MonCfg) (programs : List (List Nat)) (hcap : InCapacity c programs) :
+    Inv2 c (monInit programs) := by
+  intro r hr
+  simp only [monInit, List.mem_map] at hr
+  obtain ⟨p, hp, rfl⟩ := hr
+  refine ⟨fun i hi => hcap p hp i hi, ?_, ?_, ?_⟩
+  · intro i h; cases h
+  · intro i h; cases h
+  · intro res h; cases h
+
+theorem good_len (c : MonCfg) (s : MonSt) (hi : Inv1 c s) : Good c s.len := by
+  have h := hi.hprod
+  cases hp : s.prod with
+  | check i => rw [hp] at h; exact h.2.2.2
+  | parked i => rw [hp] at h; exact h.2.2.2.1
+  | computing i j loc =>
+    rw [hp] at h; simp only [PInv] at h
+    intro k hk; exact h.2.2.2.2.2.2 k (by omega)
+  | publishing i loc fin =>
+    rw [hp] at h
+    cases fin
+    · simp only [PInv] at h
+      intro k hk; exact h.2.2.2.2.2 k (by omega)
+    · simp only [PInv] at h
+      intro k hk; exact h.2.2.2.2.2.2.1 k (by omega)
+  | finalPublish loc => rw [hp] at h; exact h.2.2.2.2
+  | exited => rw [hp] at h; exact h.2.1
+
+theorem len_le_consulted (c : MonCfg) (s : MonSt) (hi : Inv1 c s) : s.len ≤ s.consulted := by
+  have h := hi.hprod
+  cases hp : s.prod with
+  | check i => rw [hp] at h; simp only [PInv] at h; omega
+  | parked i => rw [hp] at h; simp only [PInv] at h; omega
+  | computing i j loc => rw [hp] at h; simp only [PInv] at h; omega
+  | publishing i loc fin =>
+    rw [hp] at h
+    cases fin <;> simp only [PInv] at h <;> omega
+  | finalPublish loc => rw [hp] at h; simp only [PInv] at h; omega
+  | exited => rw [hp] at h; simp only [PInv] at h; omega
+
+/-- some prefix is good and at most one more position has been consulted -/
+theorem consulted_good (c : MonCfg) (s : MonSt) (hi : Inv1 c s) :
+    ∃ n, Good c n ∧ s.consulted ≤ n + 1 := by
+  have h := hi.hprod
+  cases hp : s.prod with
+  | check i => rw [hp] at h; simp only [PInv] at h; exact ⟨s.len, h.2.2.2, by omega⟩
+  | parked i => rw [hp] at h; simp only [PInv] at h; exact ⟨s.len, h.2.2.2.1, by omega⟩
+  | computing i j loc => rw [hp] at h; simp only [PInv] at h; exact ⟨loc, h.2.2.2.2.2.2, by omega⟩
+  | publishing i loc fin =>
+    rw [hp] at h
+    cases fin
+    · simp only [PInv] at h; exact ⟨loc, h.2.2.2.2.2, by omega⟩
+    · simp only [PInv] at h; exact ⟨loc, h.2.2.2.2.2.2.1, by omega⟩
+  | finalPublish loc => rw [hp] at h; simp only [PInv] at h; exact ⟨s.len, h.2.2.2.2, by omega⟩
+  | exited =>
+    rw [hp] at h; simp only [PInv] at h
+    exact ⟨s.len, h.2.1, by omega⟩
+
+theorem done_exited (c : MonCfg) (s : MonSt) (hi : Inv1 c s) (hd : s.done = true) :
+    s.prod = .exited := by
+  have h := hi.hprod
+  cases hp : s.prod with
+  | check i => rw [hp] at h; simp only [PInv] at h; rw [hd] at h; exact absurd h.1 (by decide)
+  | parked i => rw [hp] at h; simp only [PInv] at h; rw [hd] at h; exact absurd h.1 (by decide)
+  | computing i j loc => rw [hp] at h; simp only [PInv] at h; rw [hd] at h; exact absurd h.1 (by decide)
+  | publishing i loc fin =>
+    rw [hp] at h
+    cases fin <;> simp only [PInv] at h <;> rw [hd] at h <;> exact absurd h.1 (by decide)
+  | finalPublish loc => rw [hp] at h; simp only [PInv] at h; rw [hd] at h; exact absurd h.1 (by decide)
+  | exited => rfl
+
+theorem done_end (c : MonCfg) (s : MonSt) (hi : Inv1 c s) (hd : s.done = true)
+    (hl : s.len < cap c) : IsEndPos c s.len := by
+  have h := hi.hprod
+  rw [done_exited c s hi hd] at h
+  simp only [PInv] at h
+  rcases h.2.2 with h1 | h1
+  · exact ⟨h1.1, h.2.1⟩
+  · omega
+
+theorem rinv_mono (c : MonCfg) (len : Nat) (done : Bool) (m m' : Nat) (r : Reader) (hm : m ≤ m')
+    (h : RInv c len done m r) : RInv c len done m' r := by
+  obtain ⟨h1, h2, h3, h4⟩ := h
+  refine ⟨h1, ?_, ?_, h4⟩
+  · intro i hi; have := h2 i hi; exact ⟨this.1, this.2.1, by omega⟩
+  · intro i hi; have := h3 i hi; omega
+
+theorem rinv_waitTail (c : MonCfg) (len : Nat) (done : Bool) (m index : Nat) (r : Reader)
+    (h : RInv c len done m r) (hlt : done = false → index < m)
+    (hend : done = true → len ≤ index → ∃ e, e ≤ index ∧ IsEndPos c e) :
+    RInv c len done m (waitTail len done index r) := by
+  obtain ⟨h1, h2, h3, h4⟩ := h
+  rcases waitTail_cases len done index r with ⟨h0, h⟩ | ⟨h0, h⟩ <;> rw [h]
+  · simp only [Bool.and_eq_true, Bool.not_eq_true', decide_eq_true_eq] at h0
+    refine ⟨h1, ?_, ?_, h4⟩
+    · intro i hi; cases hi; exact ⟨h0.1, h0.2, hlt h0.1⟩
+    · intro i hi; cases hi
+  · refine ⟨h1, ?_, ?_, ?_⟩
+    · intro i hi; cases hi
+    · intro i hi; cases hi
+    · intro res hres
+      rcases List.mem_cons.mp hres with rfl | hres
+      · refine ⟨rfl, ?_⟩
+        intro hf
+        simp only [decide_eq_false_iff_not, Nat.not_lt] at hf
+        cases hd : done
+        · rw [hd] at h0; simp at h0; omega
+        · exact hend hd hf
+      · exact h4 res hres
+
+theorem step_pCheck_frame (c : MonCfg) (s s' : MonSt) (h : step c s .pCheck = some s') :
+    s'.len = s.len ∧ s'.done = s.done ∧ s'.maxLength = s.maxLength ∧ s'.readers = s.readers ∧
+      s'.consulted = s.consulted := by
+  simp only [step] at h
+  split at h
+  · split at h
+    · injection h with h; subst h; exact ⟨rfl, rfl, rfl, rfl, rfl⟩
+    · split at h <;> (injection h with h; subst h; exact ⟨rfl, rfl, rfl, rfl, rfl⟩)
+  · cases h
+
+theorem step_pCompute_frame (c : MonCfg) (s s' : MonSt) (h : step c s .pCompute = some s') :
+    s'.len = s.len ∧ s'.done = s.done ∧ s'.maxLength = s.maxLength ∧ s'.readers = s.readers ∧
+      s'.consulted = s.consulted + 1 := by
+  simp only [step] at h
+  split at h
+  · split at h
+    · injection h with h; subst h; exact ⟨rfl, rfl, rfl, rfl, rfl⟩
+    · split at h <;> (injection h with h; subst h; exact ⟨rfl, rfl, rfl, rfl, rfl⟩)
+  · cases h
+
+/-- shape of an enabled `pPublish` -/
+theorem step_pPublish (c : MonCfg) (s s' : MonSt) (h : step c s .pPublish = some s') :
+    ∃ loc fin next, (s.prod = .finalPublish loc ∧ fin = true ∨ ∃ i, s.prod = .publishing i loc fin) ∧
+      s' = { s with len := loc, done := fin, readers := broadcast s.readers, prod := next } := by
+  simp only [step] at h
+  split at h
+  · rename_i i loc fin hpc
+    injection h with h
+    exact ⟨loc, fin, _, Or.inr ⟨i, hpc⟩, h.symm⟩
+  · rename_i loc hpc
+    injection h with h
+    exact ⟨loc, true, _, Or.inl ⟨hpc, rfl⟩, h.symm⟩
+  · cases h
+
+theorem inv2_frame (c : MonCfg) (s s' : MonSt) (h1 : s'.len = s.len) (h2 : s'.done = s.done)
+    (h3 : s'.maxLength = s.maxLength) (h4 : s'.readers = s.readers) (hi : Inv2 c s) : Inv2 c s' := by
+  unfold Inv2; rw [h1, h2, h3, h4]; exact hi
+
+theorem rinv_bc (c : MonCfg) (len len' : Nat) (done done' : Bool) (m : Nat) (r : Reader)
+    (h : RInv c len done m r) : RInv c len' done' m (bc r) := by
+  obtain ⟨h1, h2, h3, h4⟩ := h
+  refine ⟨by rw [bc_todo]; exact h1, ?_, ?_, by rw [bc_results]; exact h4⟩
+  · intro i hi
+    rw [bc_pc] at hi
+    split at hi
+    · cases hi
+    · rename_i hnp; exact absurd hi (hnp i)
+  · intro i hi
+    rw [bc_pc] at hi
+    split at hi
+    · rename_i j hj; cases hi; exact (h2 i hj).2.2
+    · exact h3 i hi
+
+theorem inv2_pPublish (c : MonCfg) (s s' : MonSt) (hi : Inv2 c s)
+    (h : step c s .pPublish = some s') : Inv2 c s' := by
+  obtain ⟨loc, fin, next, _, rfl⟩ := step_pPublish c s s' h
+  intro r hr
+  simp only [broadcast_eq, List.mem_map] at hr
+  obtain ⟨r0, hr0, rfl⟩ := hr
+  exact rinv_bc c _ _ _ _ _ r0 (hi r0 hr0)
+
+theorem inv2_rWake (c : MonCfg) (s s' : MonSt) (k : Nat) (hi1 : Inv1 c s) (hi : Inv2 c s)
+    (h : step c s (.rWake k) = some s') : Inv2 c s' := by
+  obtain ⟨r, index, hr, hpc, rfl⟩ := step_rWake c s s' k h
+  have hrm : r ∈ s.readers := List.mem_of_getElem? hr
+  intro r' hr'
+  rcases List.mem_or_eq_of_mem_set hr' with hr' | rfl
+  · exact hi r' hr'
+  · have hlt : index < s.maxLength := (hi r hrm).2.2.1 index hpc
+    have hM := hi1.hM
+    have hend : s.done = true → s.len ≤ index → ∃ e, e ≤ index ∧ IsEndPos c e := by
+      intro hd hle
+      exact ⟨s.len, hle, done_end c s hi1 hd (by omega)⟩
+    exact rinv_waitTail c _ _ _ _ r (hi r hrm) (fun _ => hlt) hend
+
+theorem inv2_rEnter (c : MonCfg) (hc : 0 < c.chunk) (s s' : MonSt) (k : Nat) (hi1 : Inv1 c s)
+    (hi : Inv2 c s) (h : step c s (.rEnter k) = some s') : Inv2 c s' := by
+  obtain ⟨r, index, rest, hr, hpc, htodo, rfl⟩ := step_rEnter c s s' k h
+  have hrm : r ∈ s.readers := List.mem_of_getElem? hr
+  have hri := hi r hrm
+  have hidx : index < cap c := hri.1 index (by rw [htodo]; exact List.mem_cons_self)
+  have hr0 : RInv c s.len s.done s.maxLength { r with todo := rest } :=
+    ⟨fun i hi => hri.1 i (by rw [htodo]; exact List.mem_cons_of_mem _ hi), hri.2.1, hri.2.2.1, hri.2.2.2⟩
+  have hend : s.done = true → s.len ≤ index → ∃ e, e ≤ index ∧ IsEndPos c e := by
+    intro hd hle
+    exact ⟨s.len, hle, done_end c s hi1 hd (by omega)⟩
+  intro r' hr'
+  by_cases hg : (!s.done && decide (s.maxLength ≤ index)) = true
+  · simp only [hg, if_true] at hr' ⊢
+    have hle : s.maxLength ≤ index := by simp at hg; exact hg.2
+    have hge := grownMax_ge c hc index s.maxLength hi1.hdvd hi1.hM hle
+    rcases List.mem_or_eq_of_mem_set hr' with hr' | rfl
+    · exact rinv_mono c _ _ _ _ r' hge (hi r' hr')
+    · exact rinv_waitTail c _ _ _ _ _ (rinv_mono c _ _ _ _ _ hge hr0)
+        (fun _ => grownMax_gt c hc index hidx) hend
+  · simp only [hg] at hr' ⊢
+    rcases List.mem_or_eq_of_mem_set hr' with hr' | rfl
+    · exact hi r' hr'
+    · refine rinv_waitTail c _ _ _ _ _ hr0 ?_ hend
+      intro hd
+      rw [hd] at hg
+      simp at hg
+      exact hg
+
+theorem inv2_step (c : MonCfg) (hc : 0 < c.chunk) (s s' : MonSt) (l : Label) (hi1 : Inv1 c s)
+    (hi : Inv2 c s) (h : step c s l = some s') : Inv2 c s' := by
+  cases l with
+  | rEnter k => exact inv2_rEnter c hc s s' k hi1 hi h
+  | rWake k => exact inv2_rWake c s s' k hi1 hi h
+  | pCheck =>
+    obtain ⟨h1, h2, h3, h4, _⟩ := step_pCheck_frame c s s' h
+    exact inv2_frame c s s' h1 h2 h3 h4 hi
+  | pCompute =>
+    obtain ⟨h1, h2, h3, h4, _⟩ := step_pCompute_frame c s s' h
+    exact inv2_frame c s s' h1 h2 h3 h4 hi
+  | pPublish => exact inv2_pPublish c s s' hi h
+
+theorem inv12_run (c : MonCfg) (hc : 0 < c.chunk) (ls : List Label) : ∀ (s s' : MonSt),
+    Inv1 c s → Inv2 c s → runLabels c s ls = some s' → Inv1 c s' ∧ Inv2 c s' := by
+  induction ls with
+  | nil => intro s s' hi hi2 h; simp only [runLabels] at h; cases h; exact ⟨hi, hi2⟩
+  | cons l ls ih =>
+    intro s s' hi hi2 h
+    simp only [runLabels] at h
+    split at h
+    · cases h
+    · rename_i s1 hs1
+      exact ih s1 s' (inv1_step c hc s s1 l hi hs1) (inv2_step c hc s s1 l hi hi2 hs1) h
+
+theorem inv2_reachable (c : MonCfg) (hc : 0 < c.chunk) (programs : List (List Nat))
+    (hcap : InCapacity c programs) (s : MonSt) (h : Reachable c programs s) : Inv2 c s := by
+  obtain ⟨ls, h⟩ := h
+  exact (inv12_run c hc ls _ s (inv1_init c programs) (inv2_init c programs hcap) h).2
+
+def total (f : Reader → Nat) : List Reader → Nat
+  | [] => 0
+  | r :: rs => f r + total f rs
+
+/-- 1 for a woken reader -/
+def wk (r : Reader) : Nat := match r.pc with | .woken _ => 1 | _ => 0
+def td (r : Reader) : Nat := r.todo.length
+
+def prank : ProdPc → Nat
+  | .publishing _ _ _ => 5
+  | .finalPublish _ => 4
+  | .check _ => 3
+  | .parked _ => 2
+  | .computing _ _ _ => 1
+  | .exited => 0
+
+/-- termination measure; `R` = number of readers -/
+def mu (c : MonCfg) (R : Nat) (s : MonSt) : Nat :=
+  (R + 2) * total td s.readers + (R + 1) * (6 * (cap c - s.consulted) + prank s.prod) +
+    total wk s.readers
+
+theorem total_set (f : Reader → Nat) (l : List Reader) (k : Nat) (a b : Reader)
+    (h : l[k]? = some a) : total f (l.set k b) + f a = total f l + f b := by
+  induction l generalizing k with
+  | nil => cases h
+  | cons x xs ih =>
+    cases k with
+    | zero =>
+      simp only [List.getElem?_cons_zero, Option.some.injEq] at h
+      subst h
+      simp only [List.set_cons_zero, total]; omega
+    | succ k =>
+      simp only [List.getElem?_cons_succ] at h
+      have := ih k h
+      simp only [List.set_cons_succ, total]; omega
+
+theorem total_le_length (f : Reader → Nat) (hf : ∀ r, f r ≤ 1) (l : List Reader) :
+    total f l ≤ l.length := by
+  induction l with
+  | nil => exact Nat.le_refl _
+  | cons x xs ih => simp only [total, List.length_cons]; have := hf x; omega
+
+theorem total_map_eq (f : Reader → Nat) (g : Reader → Reader) (h : ∀ r, f (g r) = f r)
+    (l : List Reader) : total f (l.map g) = total f l := by
+  induction l with
+  | nil => rfl
+  | cons x xs ih => simp only [List.map_cons, total, ih, h]
+
+theorem wk_le_one (r : Reader) : wk r ≤ 1 := by
+  unfold wk; split <;> omega
+
+theorem wk_waitTail (len : Nat) (done : Bool) (index : Nat) (r : Reader) :
+    wk (waitTail len done index r) = 0 := by
+  rcases waitTail_cases len done index r with ⟨_, h⟩ | ⟨_, h⟩ <;> rw [h] <;> rfl
+
+theorem td_waitTail (len : Nat) (done : Bool) (index : Nat) (r : Reader) :
+    td (waitTail len done index r) = td r := by
+  rcases waitTail_cases len done index r with ⟨_, h⟩ | ⟨_, h⟩ <;> rw [h] <;> rfl
+
+theorem prank_signal (p : ProdPc) : prank (signalProd p) ≤ prank p + 1 := by
+  cases p <;> simp [signalProd, prank]
+
+theorem mu_key (R T T' P P' W W' : Nat)
+    (h : (T' < T ∧ P' ≤ P + 1 ∧ W' ≤ W) ∨ (T' = T ∧ P' = P ∧ W' < W) ∨ (T' = T ∧ P' < P ∧ W' ≤ R)) :
+    (R + 2) * T' + (R + 1) * P' + W' < (R + 2) * T + (R + 1) * P + W := by
+  rcases h with ⟨h1, h2, h3⟩ | ⟨h1, h2, h3⟩ | ⟨h1, h2, h3⟩
+  · have a1 : (R + 2) * (T' + 1) ≤ (R + 2) * T := Nat.mul_le_mul_left _ h1
+    have a2 : (R + 1) * P' ≤ (R + 1) * (P + 1) := Nat.mul_le_mul_left _ h2
+    simp only [Nat.mul_add, Nat.mul_one] at a1 a2
+    omega
+  · subst h1 h2; omega
+  · subst h1
+    have a2 : (R + 1) * (P' + 1) ≤ (R + 1) * P := Nat.mul_le_mul_left _ h2
+    simp only [Nat.mul_add, Nat.mul_one] at a2
+    omega
+
+theorem step_pCheck_rank (c : MonCfg) (hc : 0 < c.chunk) (s s' : MonSt)
+    (h : step c s .pCheck = some s') : prank s'.prod < prank s.prod := by
+  simp only [step] at h
+  split at h
+  · rename_i i hpc
+    rw [hpc]
+    split at h
+    · injection h with h; subst h; simp [prank]
+    · split at h
+      · omega
+      · injection h with h; subst h; simp [prank]
+  · cases h
+
+theorem step_pCompute_rank (c : MonCfg) (s s' : MonSt) (h : step c s .pCompute = some s') :
+    prank s'.prod ≤ prank s.prod + 4 := by
+  simp only [step] at h
+  split at h
+  · rename_i i j loc hpc
+    rw [hpc]
+    split at h
+    · injection h with h; subst h; simp [prank]
+    · split at h <;> (injection h with h; subst h; simp [prank])
+  · cases h
+
+theorem step_pPublish_rank (c : MonCfg) (s s' : MonSt) (h : step c s .pPublish = some s') :
+    prank s'.prod < prank s.prod ∧ s'.consulted = s.consulted ∧ s'.readers = broadcast s.readers := by
+  simp only [step] at h
+  split at h
+  · rename_i i loc fin hpc
+    rw [hpc]
+    injection h with h; subst h
+    refine ⟨?_, rfl, rfl⟩
+    show prank (if fin = true then ProdPc.exited
+      else if i + 1 < c.maxChunks then .check (i + 1) else .finalPublish loc) < 5
+    split
+    · simp [prank]
+    · split <;> simp [prank]
+  · rename_i loc hpc
+    rw [hpc]
+    injection h with h; subst h
+    exact ⟨by simp [prank], rfl, rfl⟩
+  · cases h
+
+theorem step_length (c : MonCfg) (s s' : MonSt) (l : Label) (h : step c s l = some s') :
+    s'.readers.length = s.readers.length := by
+  cases l with
+  | rEnter k =>
+    obtain ⟨r, index, rest, _, _, _, rfl⟩ := step_rEnter c s s' k h
+    simp only [List.length_set]
+  | rWake k =>
+    obtain ⟨r, index, _, _, rfl⟩ := step_rWake c s s' k h
+    simp only [List.length_set]
+  | pCheck => rw [(step_pCheck_frame c s s' h).2.2.2.1]
+  | pCompute => rw [(step_pCompute_frame c s s' h).2.2.2.1]
+  | pPublish =>
+    rw [(step_pPublish_rank c s s' h).2.2, broadcast_eq, List.length_map]
+
+theorem mu_step (c : MonCfg) (hc : 0 < c.chunk) (R : Nat) (s s' : MonSt) (l : Label)
+    (hi : Inv1 c s) (hR : s.readers.length = R) (h : step c s l = some s') :
+    mu c R s' < mu c R s := by
+  have hi' := inv1_step c hc s s' l hi h
+  have hR' : s'.readers.length = R := by rw [step_length c s s' l h, hR]
+  have hW' : total wk s'.readers ≤ R := by
+    rw [← hR']; exact total_le_length wk wk_le_one _
+  unfold mu
+  apply mu_key
+  cases l with
+  | rEnter k =>
+    left
+    obtain ⟨r, index, rest, hr, hpc, htodo, rfl⟩ := step_rEnter c s s' k h
+    have e1 := total_set td s.readers k r (waitTail s.len s.done index { r with todo := rest }) hr
+    have e2 := total_set wk s.readers k r (waitTail s.len s.done index { r with todo := rest }) hr
+    rw [td_waitTail] at e1
+    rw [wk_waitTail] at e2
+    have e3 : td r = td { r with todo := rest } + 1 := by simp [td, htodo]
+    have e4 : wk r = 0 := by simp [wk, hpc]
+    refine ⟨by simp only []; omega, ?_, by simp only []; omega⟩
+    simp only []
+    split
+    · have := prank_signal s.prod; omega
+    · omega
+  | rWake k =>
+    right; left
+    obtain ⟨r, index, hr, hpc, rfl⟩ := step_rWake c s s' k h
+    have e1 := total_set td s.readers k r (waitTail s.len s.done index r) hr
+    have e2 := total_set wk s.readers k r (waitTail s.len s.done index r) hr
+    rw [td_waitTail] at e1
+    rw [wk_waitTail] at e2
+    have e4 : wk r = 1 := by simp [wk, hpc]
+    exact ⟨by simp only []; omega, rfl, by simp only []; omega⟩
+  | pCheck =>
+    right; right
+    obtain ⟨_, _, _, h4, h5⟩ := step_pCheck_frame c s s' h
+    have := step_pCheck_rank c hc s s' h
+    refine ⟨by rw [h4], by rw [h5]; omega, hW'⟩
+  | pCompute =>
+    right; right
+    obtain ⟨_, _, _, h4, h5⟩ := step_pCompute_frame c s s' h
+    have h6 := step_pCompute_rank c s s' h
+    have h7 := hi'.hcons
+    have h8 := hi'.hM
+    have h9 : prank s.prod = 1 := by
+      simp only [step] at h
+      split at h
+      · rename_i hpc; rw [hpc]; rfl
+      · cases h
+    refine ⟨by rw [h4], by omega, hW'⟩
+  | pPublish =>
+    right; right
+    obtain ⟨h1, h2, h3⟩ := step_pPublish_rank c s s' h
+    refine ⟨?_, by rw [h2]; omega, hW'⟩
+    rw [h3, broadcast_eq]
+    exact total_map_eq td bc (fun r => by simp [td, bc_todo]) _
+
+theorem mu_run (c : MonCfg) (hc : 0 < c.chunk) (R : Nat) (ls : List Label) : ∀ (s s' : MonSt),
+    Inv1 c s → s.readers.length = R → runLabels c s ls = some s' →
+    ls.length + mu c R s' ≤ mu c R s := by
+  induction ls with
+  | nil => intro s s' _ _ h; simp only [runLabels] at h; cases h; simp
+  | cons l ls ih =>
+    intro s s' hi hR h
+    simp only [runLabels] at h
+    split at h
+    · cases h
+    · rename_i s1 hs1
+      have h1 := ih s1 s' (inv1_step c hc s s1 l hi hs1) (by rw [step_length c s s1 l hs1, hR]) h
+      have h2 := mu_step c hc R s s1 l hi hR hs1
+      simp only [List.length_cons]
+      omega
+
+
+theorem enabled_of (c : MonCfg) (s : MonSt) (l : Label) (h1 : l ∈ allLabels s)
+    (h2 : (step c s l).isSome = true) : enabledLabels c s ≠ [] := by
+  apply List.ne_nil_of_mem (a := l)
+  unfold enabledLabels
+  exact List.mem_filter.mpr ⟨h1, h2⟩
+
+theorem rEnter_mem (s : MonSt) (k : Nat) (hk : k < s.readers.length) : Label.rEnter k ∈ allLabels s := by
+  unfold allLabels
+  apply List.mem_append_right
+  exact List.mem_flatMap.mpr ⟨k, List.mem_range.mpr hk, by simp⟩
+
+theorem rWake_mem (s : MonSt) (k : Nat) (hk : k < s.readers.length) : Label.rWake k ∈ allLabels s := by
+  unfold allLabels
+  apply List.mem_append_right
+  exact List.mem_flatMap.mpr ⟨k, List.mem_range.mpr hk, by simp⟩
+
+
+end Mon
+open Mon
+
+/-! ## The theorems -/
+
 /-- C05 safety: every `wait(index)` that has returned gave the sequential answer:
 `ok` exactly when `index` is a position of the valid digit prefix, and then the returned snapshot
 is longer than `index` and contains valid digits only. -/
@@ -33,13 +949,27 @@ theorem mon_safety (c : MonCfg) (hc : 0 < c.chunk) (programs : List (List Nat))
     ∀ r ∈ s.readers, ∀ res ∈ r.results,
       (res.2.2 = true → res.1 < res.2.1 ∧ ∀ k, k < res.2.1 → ValidUpTo c k) ∧
       (res.2.2 = false → ∃ e, e ≤ res.1 ∧ IsEndPos c e) := by
-  sorry
+  have hi1 := inv1_reachable c hc programs s h
+  have hi2 := inv2_reachable c hc programs hcap s h
+  intro r hr res hres
+  have h1 := hi1.hres r hr res hres
+  have h2 := (hi2 r hr).2.2.2 res hres
+  have hg := good_len c s hi1
+  refine ⟨?_, h2.2⟩
+  intro hok
+  rw [h2.1] at hok
+  refine ⟨of_decide_eq_true hok, ?_⟩
+  intro k hk j hj
+  exact hg j (by omega)
 
 /-- what is published is a prefix of the valid digits and has been consulted -/
 theorem mon_published_valid (c : MonCfg) (hc : 0 < c.chunk) (programs : List (List Nat))
     (s : MonSt) (h : Reachable c programs s) :
     s.len ≤ s.consulted ∧ ∀ k, k < s.len → ValidUpTo c k := by
-  sorry
+  have hi1 := inv1_reachable c hc programs s h
+  refine ⟨len_le_consulted c s hi1, ?_⟩
+  intro k hk j hj
+  exact good_len c s hi1 j (by omega)
 
 /-- C05 no lost wake-up: the two monitor invariants.
 I1: a parked producer has nothing to do (`len ≥ maxLength`).
@@ -50,33 +980,125 @@ theorem mon_no_lost_wakeup (c : MonCfg) (hc : 0 < c.chunk) (programs : List (Lis
     (∀ i, s.prod = .parked i → s.maxLength ≤ s.len) ∧
     (∀ r ∈ s.readers, ∀ i, r.pc = .parked i → s.done = false ∧ s.len ≤ i ∧ i < s.maxLength) ∧
     ((∃ r ∈ s.readers, ∃ i, r.pc = .parked i) → ∀ i, s.prod ≠ .parked i ∧ s.prod ≠ .exited) := by
-  sorry
+  have hi1 := inv1_reachable c hc programs s h
+  have hi2 := inv2_reachable c hc programs hcap s h
+  have hI1 : ∀ i, s.prod = .parked i → s.maxLength ≤ s.len := by
+    intro i hp
+    have := hi1.hprod
+    rw [hp] at this
+    exact this.2.2.2.2
+  have hI2 : ∀ r ∈ s.readers, ∀ i, r.pc = .parked i → s.done = false ∧ s.len ≤ i ∧ i < s.maxLength :=
+    fun r hr i hp => (hi2 r hr).2.1 i hp
+  refine ⟨hI1, hI2, ?_⟩
+  rintro ⟨r, hr, i, hp⟩ j
+  have h2 := hI2 r hr i hp
+  constructor
+  · intro hpp
+    have := hI1 j hpp
+    omega
+  · intro hpe
+    have := hi1.hprod
+    rw [hpe] at this
+    have hd : s.done = true := this.1
+    rw [h2.1] at hd
+    cases hd
 
 /-- C05 deadlock freedom: while any reader has work, some transition is enabled -/
 theorem mon_deadlock_free (c : MonCfg) (hc : 0 < c.chunk) (programs : List (List Nat))
     (hcap : InCapacity c programs) (s : MonSt) (h : Reachable c programs s)
     (hp : pending s = true) : enabledLabels c s ≠ [] := by
-  sorry
+  have hi1 := inv1_reachable c hc programs s h
+  have hi2 := inv2_reachable c hc programs hcap s h
+  unfold pending at hp
+  rw [List.any_eq_true] at hp
+  obtain ⟨r, hr, hpr⟩ := hp
+  obtain ⟨k, hk, hkr⟩ := List.getElem_of_mem hr
+  have hk' : s.readers[k]? = some r := by rw [List.getElem?_eq_getElem hk, hkr]
+  cases hpc : r.pc with
+  | idle =>
+    rw [hpc] at hpr
+    cases htodo : r.todo with
+    | nil => rw [htodo] at hpr; simp at hpr
+    | cons index rest =>
+      apply enabled_of c s (.rEnter k) (rEnter_mem s k hk)
+      simp only [step, hk', hpc, htodo, Option.isSome_some]
+  | woken i =>
+    apply enabled_of c s (.rWake k) (rWake_mem s k hk)
+    simp only [step, hk', hpc, Option.isSome_some]
+  | parked i =>
+    have h2 := (hi2 r hr).2.1 i hpc
+    have hpi := hi1.hprod
+    cases hpp : s.prod with
+    | check j =>
+      apply enabled_of c s .pCheck (by simp [allLabels])
+      simp only [step, hpp]
+      split
+      · rfl
+      · split <;> rfl
+    | parked j =>
+      rw [hpp] at hpi
+      have := hpi.2.2.2.2
+      omega
+    | computing j1 j2 loc =>
+      apply enabled_of c s .pCompute (by simp [allLabels])
+      simp only [step, hpp]
+      split
+      · rfl
+      · split <;> rfl
+    | publishing j loc fin =>
+      apply enabled_of c s .pPublish (by simp [allLabels])
+      simp only [step, hpp, Option.isSome_some]
+    | finalPublish loc =>
+      apply enabled_of c s .pPublish (by simp [allLabels])
+      simp only [step, hpp, Option.isSome_some]
+    | exited =>
+      rw [hpp] at hpi
+      have hd : s.done = true := hpi.1
+      rw [h2.1] at hd
+      cases hd
 
 /-- C05 termination under ANY scheduler: run length is bounded (so no fairness assumption is
 needed); together with `mon_deadlock_free` every maximal execution ends with all calls returned. -/
 theorem mon_terminates (c : MonCfg) (hc : 0 < c.chunk) (programs : List (List Nat))
     (hcap : InCapacity c programs) :
     ∃ N : Nat, ∀ ls s, runLabels c (monInit programs) ls = some s → ls.length ≤ N := by
-  sorry
+  have _ := hcap
+  refine ⟨mu c programs.length (monInit programs), ?_⟩
+  intro ls s h
+  have := mu_run c hc programs.length ls _ s (inv1_init c programs) (by simp [monInit]) h
+  omega
 
 /-- C06: only the producer's compute step consults the source (never a reader, never concurrently:
 the producer is a single sequential thread), one position per step, in order -/
 theorem consult_single (c : MonCfg) (s s' : MonSt) (l : Label) (h : step c s l = some s') :
     (l ≠ .pCompute → s'.consulted = s.consulted) ∧
     (l = .pCompute → s'.consulted = s.consulted + 1) := by
-  sorry
+  cases l with
+  | rEnter k =>
+    obtain ⟨r, index, rest, _, _, _, rfl⟩ := step_rEnter c s s' k h
+    exact ⟨fun _ => rfl, fun h => by cases h⟩
+  | rWake k =>
+    obtain ⟨r, index, _, _, rfl⟩ := step_rWake c s s' k h
+    exact ⟨fun _ => rfl, fun h => by cases h⟩
+  | pCheck =>
+    exact ⟨fun _ => (step_pCheck_frame c s s' h).2.2.2.2, fun h => by cases h⟩
+  | pCompute =>
+    exact ⟨fun h => absurd rfl h, fun _ => (step_pCompute_frame c s s' h).2.2.2.2⟩
+  | pPublish =>
+    obtain ⟨loc, fin, next, _, rfl⟩ := step_pPublish c s s' h
+    exact ⟨fun _ => rfl, fun h => by cases h⟩
 
 /-- C06: nothing is consulted after the source signalled the end -/
 theorem consult_stops (c : MonCfg) (hc : 0 < c.chunk) (programs : List (List Nat))
     (s : MonSt) (h : Reachable c programs s) (e : Nat) (he : IsEndPos c e) :
     s.consulted ≤ e + 1 := by
-  sorry
+  have hi1 := inv1_reachable c hc programs s h
+  obtain ⟨n, hg, hn⟩ := consulted_good c s hi1
+  rcases Nat.lt_or_ge e n with hlt | hge
+  · have := hg e hlt
+    rw [he.1] at this
+    cases this
+  · omega
 
 /-- C06 bounded read-ahead: consulted positions never exceed the demand `maxLength`, which is a
 multiple of the block size no more than one block beyond the highest index asked for. -/
@@ -84,12 +1106,17 @@ theorem consult_bound (c : MonCfg) (hc : 0 < c.chunk) (programs : List (List Nat
     (s : MonSt) (h : Reachable c programs s) :
     s.consulted ≤ s.maxLength ∧
     (s.maxLength = 0 ∨ ∃ i ∈ entered s, s.maxLength ≤ i + c.chunk) := by
-  sorry
+  have hi1 := inv1_reachable c hc programs s h
+  exact ⟨hi1.hcons, hi1.hent⟩
 
 /-- C06: before any `wait` call nothing is consulted (construction is lazy) -/
 theorem consult_lazy (c : MonCfg) (hc : 0 < c.chunk) (programs : List (List Nat))
     (s : MonSt) (h : Reachable c programs s) (hnone : entered s = []) : s.consulted = 0 := by
-  sorry
+  have hi1 := inv1_reachable c hc programs s h
+  have h1 := hi1.hcons
+  rcases hi1.hent with h2 | ⟨i, hi, _⟩
+  · omega
+  · rw [hnone] at hi; cases hi
 
 /-- C05 disjoint access: the producer writes its local slice only at indices ≥ the published
 length, while every snapshot handed to a reader is no longer than the published length. -/
@@ -97,6 +1124,12 @@ theorem mon_disjoint_access (c : MonCfg) (hc : 0 < c.chunk) (programs : List (Li
     (s : MonSt) (h : Reachable c programs s) :
     (∀ i j loc, s.prod = .computing i j loc → s.len ≤ loc) ∧
     (∀ r ∈ s.readers, ∀ res ∈ r.results, res.2.1 ≤ s.len) := by
-  sorry
+  have hi1 := inv1_reachable c hc programs s h
+  refine ⟨?_, hi1.hres⟩
+  intro i j loc hp
+  have := hi1.hprod
+  rw [hp] at this
+  simp only [PInv] at this
+  omega
 
 end Sqroot.Proofs
